@@ -743,6 +743,50 @@ DUPLICATES = [
 ]
 
 
+# Programs whose labels come from the SQL features defined by an alternation / unusual key of spec.md
+# (`concatenation_operator|replication_operator`, `try_raise|try_except`, `higher-order function`, ...).
+ALT_PROGRAMS = [
+    ["s = 'a' + 'b'", "t = [0] * 3", "u = 'x' * 2 + 'y'"],
+    ["if a == b == c:", "    pass", "if a < b <= c:", "    pass", "x = a != b != c", "y = 0 <= i < n"],
+    ["class A:", "    def m(self):", "        return 1", "    @classmethod", "    def c(cls):", "        return 2",
+     "    @staticmethod", "    def s():", "        return 3"],
+    ["def h(f, x):", "    return f(x)", "print(list(map(abs, [1, -2])))", "y = sorted(z, key=len)"],
+    ["def g(x):", "    try:", "        if x < 0:", "            raise ValueError", "        y = 1 / x",
+     "    except ZeroDivisionError:", "        y = 0", "    except ValueError:", "        y = -1", "    return y"],
+    ["def count(seq):", "    n = 0", "    for x in seq:", "        n += 1", "    return n", "def count_even(seq):",
+     "    n = 0", "    for x in seq:", "        if x % 2 == 0:", "            n += 1", "    return n"],
+    ["n = 0", "while n < 10:", "    n += 1", "c = 0", "for i in range(10):", "    if i % 3 == 0:", "        c = c + 1",
+     "k = 0", "while k < 10:", "    if k % 2:", "        k += 1", "    k += 2"],
+    ["def all_pos(seq):", "    for x in seq:", "        if x <= 0:", "            return False", "    return True",
+     "def any_neg(seq):", "    for x in seq:", "        if x < 0:", "            return True", "    return False"],
+]
+
+
+def alternation_cases(ctx, impl, rec):
+    """(program, targets, dotted): deletions aimed at each label produced by an SQL feature whose key in
+    `ProgramParser().queries` is not a plain identifier, one at a time and in pairs, `-L` and `-L... ...L` forms."""
+    keys = list(rec.parser.queries)
+    unusual = [i for i, k in enumerate(keys) if not impl.regex.fullmatch(r"\w+", k)]
+    ctx.dist("end-to-end:unusual-query-keys", len(unusual))
+    cases = []
+    for base in ALT_PROGRAMS:
+        try:
+            labels0 = rec.run(quiet(impl.lp.get_program, "\n".join(base)))
+        except Exception:  # noqa
+            continue
+        if rec.seeded is None or len(rec.derived) != len(keys):
+            continue
+        names = {row[0] for i in unusual for row in rec.derived[i]}
+        targets = sorted({(nm, s, e) for nm, spans in labels0 if nm in names for (s, e, _p) in spans
+                          if not any(ch.isspace() for ch in nm)})
+        for j, t in enumerate(targets):
+            cases.append((base, [t], j % 2 == 1))
+        for j in range(0, len(targets) - 1, 2):
+            cases.append((base, [targets[j], targets[j + 1]], j % 4 == 0))
+    ctx.dist("end-to-end:alternation-deletion-cases", len(cases))
+    return cases
+
+
 def stream_end_to_end(ctx, impl, drv, judge, real_programs):
     rec = Recorder(impl)
     small = []
@@ -758,7 +802,8 @@ def stream_end_to_end(ctx, impl, drv, judge, real_programs):
         if 2 <= len(ls) <= 25 and all(l == l.rstrip() for l in ls):
             small.append(ls)
     ctx.dist("end-to-end:cleaned-programs", len(small))
-    n = 60 if ctx.tier == "quick" else 1200
+    forced = alternation_cases(ctx, impl, rec)
+    n = (60 if ctx.tier == "quick" else 1200) + len(forced)
     done = 0
     tries = 0
     nbind = 0
@@ -766,7 +811,10 @@ def stream_end_to_end(ctx, impl, drv, judge, real_programs):
         tries += 1
         rng = ctx.rng
         r0 = rng.random()
-        if tries <= 5 or r0 < 0.2:  # programs with several computed occurrences of one label on one line range
+        plan = forced.pop(0) if forced else None
+        if plan is not None:
+            base = list(plan[0])
+        elif tries <= 5 or r0 < 0.2:  # programs with several computed occurrences of one label on one line range
             base = list(DUPLICATES[(tries - 1) % len(DUPLICATES)] if tries <= 5 else rng.choice(DUPLICATES))
         elif small and r0 < 0.8:
             base = list(rng.choice(small))
@@ -806,7 +854,15 @@ def stream_end_to_end(ctx, impl, drv, judge, real_programs):
         dups = [k for k, v in mult.items() if v >= 2 and base[k[1] - 1].strip() and base[k[2] - 1].strip()]
         dups_sql = [k for k in dups if k[0] not in regex_names]
         ndup = 0
-        if dups and (tries <= 5 or rng.random() < 0.5):
+        if plan is not None:  # deletions aimed at the labels of the alternation / unusual SQL feature keys
+            for (nm, s_, e_) in plan[1]:
+                if s_ == e_ and not plan[2]:
+                    lines[s_ - 1]["hints"].append({"mark": "one-", "label": nm})
+                else:
+                    lines[s_ - 1]["hints"].append({"mark": "opn-", "label": nm, "uni": plan[2] and s_ != e_})
+                    lines[e_ - 1]["hints"].append({"mark": "cls", "label": nm})
+            ndup = len(plan[1])
+        elif dups and (tries <= 5 or rng.random() < 0.5):
             for key in ([rng.choice(dups)] + ([rng.choice(dups_sql)] if dups_sql and rng.random() < 0.7 else [])):
                 nm, s_, e_ = key
                 if any(h["label"] == nm for l in lines for h in l["hints"]):
@@ -825,7 +881,7 @@ def stream_end_to_end(ctx, impl, drv, judge, real_programs):
             ctx.dist("end-to-end:duplicate-deletion-cases", 1 if ndup else 0)
             ctx.dist("end-to-end:duplicate-deletion-sql-stage", sum(1 for k in dups_sql if any(
                 h["label"] == k[0] for l in lines for h in l["hints"])))
-        for _ in range(rng.randint(0 if ndup else 1, 5)):
+        for _ in range(0 if plan is not None else rng.randint(0 if ndup else 1, 5)):
             kind = rng.random()
             if clean and kind < 0.6:
                 nm, s, e = rng.choice(clean)
